@@ -142,12 +142,26 @@ def run(prog: Program, res: Result) -> None:
                         f"special_agents is called with task_type={norm(bound['task_type'])}: internal costs are always "
                         f"minimised, so any direction but the default selects the wrong end for maximisation tasks"))
     nb, nw = bound.get("n_best"), bound.get("n_worst")
-    ev = Evaluator(prog, MIN)
-    try:
+    from ..ord import run_paths
+
+    def _best_of(got, ev_):
+        env_ = {}
+        ev_.assign(_rename_targets(best_stmt.targets[0]), got, env_)
+        return env_.get("self._best_agent")
+
+    def _is_first_of_asc(b_):
+        return isinstance(b_, E) and b_.src == "population" and b_.kind == "objs" and \
+            ((b_.order == "ASC" and b_.at == "first") or (b_.order == "DESC" and b_.at == "last"))
+
+    def _run(choices):
+        ev_ = Evaluator(prog, MIN)
+        ev_.choices = list(choices)
         args = {"population": L("population"),
                 "n_best": Scalar(norm(nb)) if nb is not None else Scalar("None"),
                 "n_worst": Scalar(norm(nw)) if nw is not None else Scalar("None")}
-        got = ev.call_helper(sa, args)
+        return ev_, ev_.call_helper(sa, args)
+    try:
+        paths = run_paths(_run)
     except OrdDeviation as exc:
         res.ob(False)
         res.add(Finding(P, "C03.R2-best-is-first-of-asc", construct_key(prog, best_stmt, opt.module),
@@ -158,19 +172,20 @@ def run(prog: Program, res: Result) -> None:
     except OrdUnknown as exc:
         res.errors.append(f"ORD cannot evaluate special_agents for optimize(): {exc}")
         return
-    # unpack along the target
+    # unpack along the target; every path through the helpers (fast paths on counts / sizes) must deliver the optimum
     tgt = best_stmt.targets[0]
-    env = {}
-    try:
-        ev.assign(_rename_targets(tgt), got, env)
-    except OrdUnknown as exc:
-        res.ob(False)
-        res.add(Finding(P, "C03.R2-best-is-first-of-asc", construct_key(prog, best_stmt, opt.module),
-                        f"{opt.module.relpath}:{best_stmt.lineno}", f"cannot unpack {got} into `{norm(tgt)}`: {exc}"))
-        return
-    b = env.get("self._best_agent")
-    okb = isinstance(b, E) and b.src == "population" and b.kind == "objs" and \
-        ((b.order == "ASC" and b.at == "first") or (b.order == "DESC" and b.at == "last"))
+    b = None
+    for (path_, got, ev) in paths:
+        try:
+            b = _best_of(got, ev)
+        except OrdUnknown as exc:
+            res.ob(False)
+            res.add(Finding(P, "C03.R2-best-is-first-of-asc", construct_key(prog, best_stmt, opt.module),
+                            f"{opt.module.relpath}:{best_stmt.lineno}", f"cannot unpack {got} into `{norm(tgt)}`: {exc}"))
+            return
+        if not _is_first_of_asc(b):
+            break
+    okb = _is_first_of_asc(b)
     res.ob(okb, f"self._best_agent := {b.show() if isinstance(b, E) else b}", "best-ord")
     if not okb:
         res.add(Finding(P, "C03.R2-best-is-first-of-asc", construct_key(prog, best_stmt, opt.module),
